@@ -44,7 +44,9 @@ def observe(cid, body):
 
 def value_for(r, f, rich=True):
     if f in INT_FIELDS:
-        n = r.choice([0, 1, 3, 192, 480, 999999999, r.randrange(0, 10**9)])
+        # "forall non-negative integers": values are compared as digit sequences, so any size is exact
+        n = r.choice([0, 1, 3, 192, 480, 999999999, r.randrange(0, 10**9), 2**53 + 1, 2**63 - 1, 10**18 + 1,
+                      r.randrange(10**15, 10**19), r.randrange(10**20, 10**30)])
         s = str(n) if r.random() < 0.8 else "0" * r.randrange(1, 3) + str(n)
         if f == "resolution":
             s = str(r.choice([192, 480, 100, 1, 960]))
